@@ -32,7 +32,7 @@ SynAck  == [k |-> "SYNACK"]
 Pkt(k)  == [k |-> k]                 \* DATA / ACK / NACK / FIN
 
 VARIABLES
-    cpc,      \* "start" | "wait" | "done" | "fail"
+    cpc,      \* "start" | "wait" | "ack" | "done" | "fail"
     spc,      \* "waitSyn" | "reply" | "waitAck" | "done" | "fail"
     cResent, sResent,
     sN,       \* window the server would adopt (from the last SYN it accepted)
@@ -70,18 +70,21 @@ CTimeout ==
     /\ UNCHANGED <<spc, sResent, sN, seenN, toC, toS, drops, dups>>
 
 \* the client reads a packet while waiting for the server's SYN
-CRcv(k) ==
+CRcv ==
     /\ cpc = "wait" /\ toC # <<>>
     /\ toC' = Tail(toC)
     /\ LET p == Head(toC) IN
        IF p.k = "SYN"
-       THEN IF p.n = CliN
-            THEN /\ toS' = Put(toS, SynAck, k) /\ Fault(k)   \* SYNACK; done
-                 /\ cpc' = "done"
-            ELSE /\ cpc' = "fail"                            \* io.EOF
-                 /\ UNCHANGED <<toS, drops, dups>>
-       ELSE UNCHANGED <<cpc, toS, drops, dups>>              \* ignored
-    /\ UNCHANGED <<spc, cResent, sResent, sN, seenN, timeouts>>
+       THEN cpc' = IF p.n = CliN THEN "ack" ELSE "fail"     \* io.EOF on mismatch
+       ELSE UNCHANGED cpc                                    \* ignored
+    /\ UNCHANGED <<spc, cResent, sResent, sN, seenN, toS, drops, dups, timeouts>>
+
+\* the client answers the server's SYN with SYNACK and is done
+CSendSynAck(k) ==
+    /\ cpc = "ack"
+    /\ toS' = Put(toS, SynAck, k) /\ Fault(k)
+    /\ cpc' = "done"
+    /\ UNCHANGED <<spc, cResent, sResent, sN, seenN, toC, timeouts>>
 
 Representable(n) == n \in 0..254
 
@@ -142,7 +145,8 @@ Room == Len(toC) < ChanCap /\ Len(toS) < ChanCap
 Next ==
     \/ \E k \in {0, 1, 2} : CanFault(k) /\ Room /\ CSendSyn(k)
     \/ timeouts < MaxTimeouts /\ CTimeout
-    \/ \E k \in {0, 1, 2} : CanFault(k) /\ Room /\ CRcv(k)
+    \/ CRcv
+    \/ \E k \in {0, 1, 2} : CanFault(k) /\ Room /\ CSendSynAck(k)
     \/ SRcvWaitSyn
     \/ \E k \in {0, 1, 2} : CanFault(k) /\ Room /\ SReply(k)
     \/ SRcvWaitAck
@@ -151,7 +155,7 @@ Next ==
 
 \* fairness for the liveness property: packets are read, replies are sent,
 \* and the timeouts fire when nothing else can happen
-Fair == /\ WF_vars(CRcv(1)) /\ WF_vars(SRcvWaitSyn) /\ WF_vars(SRcvWaitAck)
+Fair == /\ WF_vars(CRcv) /\ WF_vars(CSendSynAck(1)) /\ WF_vars(SRcvWaitSyn) /\ WF_vars(SRcvWaitAck)
         /\ WF_vars(CSendSyn(1)) /\ WF_vars(SReply(1))
         /\ WF_vars(CTimeout) /\ WF_vars(STimeout) /\ WF_vars(CData(1))
 
@@ -172,7 +176,7 @@ CliOwnN == cpc = "done" => TRUE
 
 \* a side that is not going to proceed has failed with an error (it is not
 \* silently stuck in a terminal state other than done/fail)
-Terminal == cpc \in {"start", "wait", "done", "fail"}
+Terminal == cpc \in {"start", "wait", "ack", "done", "fail"}
             /\ spc \in {"waitSyn", "reply", "waitAck", "done", "fail"}
 
 \* with no stale packets and no faults left, a handshake completes
